@@ -302,10 +302,13 @@ def replay(obj, kind=None):
     P = pool(w, obj.get("thorough", False))
     CURRENT_POOL = P
     quantities = [(f"{l}", u, m) for (l, u) in P for m in MAGS]
+    # a row (one left operand against every right operand, every operator, then the mixed
+    # forms) is evaluated from one restored state, so an outcome may depend on what the
+    # row did before it: the replay re-runs the row the same way and looks for the case
+    i = obj["qq"][1] if "qq" in obj else obj["mixed"]
+    n, nt, viols, outcomes = _chunk((obj.get("thorough", False), [i]))
     if "qq" in obj:
-        op, i, j = obj["qq"]
-        oc, v = judge_qq(w, op, *quantities[i], *quantities[j])
-        return v is not None, f"{oc} {v}"
-    n, out = judge_mixed(w, *quantities[obj["mixed"]])
-    out = [o for o in out if kind is None or o[0] == kind]
-    return bool(out), "; ".join(o[2] for o in out[:4])
+        hits = [v for v in viols if v[3].get("qq") == obj["qq"] and (kind is None or v[0] == kind)]
+    else:
+        hits = [v for v in viols if "mixed" in v[3] and (kind is None or v[0] == kind)]
+    return bool(hits), "; ".join(v[2] for v in hits[:4]) or "consistent with dimensional analysis"
